@@ -571,11 +571,17 @@ func windowRegions(es []expr, i int, tb *table) map[int]string {
 			}
 		}
 	}
-	// two window expressions of one statement that differ only in their frame or in a
-	// literal argument are computed once (the second one returns the first one's values)
+	// two window expressions of one statement whose printed form (sql.Expression.String) is
+	// the same are computed once: the later one returns the earlier one's values. The
+	// printed form loses (a) the argument of NTILE, (b) the end bound of every frame that
+	// starts with UNBOUNDED PRECEDING.
 	for j, o := range es {
-		if j != i && o.dedupKey() == e.dedupKey() && o.sql != e.sql {
-			all("C08-window-expr-dedup")
+		if j != i && o.sql != e.sql && o.engineKey() == e.engineKey() {
+			if e.label == "NTILE" {
+				all("C08-ntile-argument-dedup")
+			} else {
+				all("C08-frame-end-dedup")
+			}
 		}
 	}
 	// default frame of a window ordered by several keys: peers are taken from the first key
@@ -622,11 +628,19 @@ func windowRegions(es []expr, i int, tb *table) map[int]string {
 	return out
 }
 
-// dedupKey: function name + partition/order, without arguments and frame.
-func (e expr) dedupKey() string {
+// engineKey mimics what the engine's String() keeps of a window expression.
+func (e expr) engineKey() string {
 	w := *e.win
-	w.frame = nil
-	return strings.SplitN(e.sql, "(", 2)[0] + "|" + w.sql()
+	fn := strings.SplitN(e.sql, " OVER ", 2)[0]
+	if e.label == "NTILE" {
+		fn = "NTILE"
+	}
+	if w.frame != nil && w.frame.start.kind == bUnboundedPreceding {
+		f := *w.frame
+		f.short, f.end = false, bound{kind: bUnboundedFollowing}
+		w.frame = &f
+	}
+	return fn + "|" + w.sql()
 }
 
 func vkind(tb *table) string {
